@@ -30,6 +30,13 @@ Theorem C06_order_independent : forall n o1 o2 a, wf_stream n o1 -> wf_stream n 
   indexed o1 a -> map proj (merged (index_all n o1) a) = map proj (merged (index_all n o2) a).
 Proof. exact merged_order_independent. Qed.
 
+(* Round 2: Flush / DropNotFlushed histories (analogue of C05_flush_drop_histories) *)
+Theorem C06_flush_drop_histories : forall n ops st a ea, vinv n (vs_flushed st) -> vinv n (vs_cur st) ->
+  wf_vops n (evs (vs_flushed st)) (evs (vs_cur st)) ops ->
+  let st' := fold_left vs_step ops st in
+  evt (vs_cur st') a ea -> map proj (merged (vs_cur st') a) = merged_spec n (evs (vs_cur st')) a.
+Proof. exact vstore_merged. Qed.
+
 (* non-vacuity: the fork stream of props/C05.v (validator 0 forks at seq 2; event 6 sees it) *)
 Definition ex_o : list event :=
   [ {| eid := 1; ecr := 0; eseq := 1; epar := [] |};
@@ -59,3 +66,4 @@ Print Assumptions C06_spec_t_is_spec.
 Print Assumptions C06_merged_equals_spec.
 Print Assumptions C06_merged_from_invariant.
 Print Assumptions C06_order_independent.
+Print Assumptions C06_flush_drop_histories.
